@@ -377,11 +377,11 @@ def parse_csv_raw(data_path) -> DatasetInformationStorage:
     column_types: set[str] = set()
 
     data_path = os.path.join(data_path, 'data.csv')
-    with open(data_path) as inp_data:
+    encoding = 'latin1'
+    with open(data_path, encoding=encoding) as inp_data:
         header = inp_data.readline()
     col_delimiter = ','
     column_names = header.strip().split(col_delimiter)
-    encoding = 'latin1'
     return DatasetInformationStorage(
         data_path, column_names, column_types, col_delimiter, encoding, None,
     )
